@@ -142,6 +142,15 @@ def two_index(shells_a, shells_b, blockfn):
     return np.concatenate(rows, axis=0)
 
 
+def diag_index(shells, blockfn):
+    """Diagonal (a == b) of two_index(shells, shells, blockfn) computed from the diagonal shell blocks only."""
+    parts = []
+    for s in shells:
+        f = flatten_block(blockfn(s, s), s, s)
+        parts.append(np.einsum("aa...->a...", f))
+    return np.concatenate(parts, axis=0)
+
+
 def refs(shell_dicts, **kw):
     return [ShellRef(d, **kw) for d in shell_dicts]
 
